@@ -329,6 +329,15 @@ def mask_textline_by_region(baseline, textline, region):
     baseline_is = region_shpl.intersection(baseline_shpl)
     textline_is = region_shpl.intersection(textline_shpl)
 
+    if isinstance(textline_is, sg.GeometryCollection):  # polygon parts plus touching points / edges
+        polygon_parts = [part for part in textline_is.geoms if isinstance(part, sg.Polygon)]
+        if polygon_parts:
+            textline_is = sg.MultiPolygon(polygon_parts)
+    if isinstance(baseline_is, sg.GeometryCollection):  # line parts plus touching points
+        line_parts = [part for part in baseline_is.geoms if isinstance(part, sg.LineString)]
+        if line_parts:
+            baseline_is = sg.MultiLineString(line_parts)
+
     if isinstance(textline_is, sg.MultiPolygon):  # this can happen generally with some combinations of layout and line detection
         areas = np.array([poly.area for poly in textline_is.geoms])
         textline_is = textline_is.geoms[np.argmax(areas)]
